@@ -13,6 +13,7 @@ import Indi.Spec.Num
 import Indi.Model.B64
 import Indi.Model.Dev
 import Indi.Spec.Dev
+import Indi.Spec.Cli
 
 open Indi Indi.Wire
 
@@ -288,6 +289,126 @@ def devRun : Dev.Device → List Dev.Op → List String
   | _, [] => []
   | d, op :: rest => let r := Dev.step d op; encDevResult r :: devRun r.dev rest
 
+/-! client component -/
+
+def pCVal : P Cli.CVal := do
+  let t ← tok
+  match t with
+  | "N" => pure .none
+  | "T" => do let v ← pStr; pure (.text v)
+  | "B" => do let b ← pBytes; let f ← pOpt; pure (.blob b f)
+  | _ => fail
+
+def encCVal : Cli.CVal → String
+  | .none => "N"
+  | .text v => "T " ++ encStr v
+  | .blob b f => "B " ++ encBytes b ++ " " ++ encOpt f
+
+def pVKind : P Cli.VKind := do
+  let t ← tok
+  match t with
+  | "number" => pure .number | "switch" => pure .switch | "text" => pure .text
+  | "blob" => pure .blob | "light" => pure .light
+  | _ => fail
+
+def encVKind : Cli.VKind → String
+  | .number => "number" | .switch => "switch" | .text => "text" | .blob => "blob" | .light => "light"
+
+def pCElem : P (Option Str × Cli.CElem) := do
+  let n ← pOpt; let l ← pOpt; let v ← pCVal
+  pure (n, { name := n, label := l, value := v })
+
+def pCVec : P (Option Str × Cli.CVec) := do
+  let k ← pVKind; let n ← pOpt; let g ← pOpt; let l ← pOpt; let ts ← pOpt; let msg ← pOpt; let st ← pOpt
+  let es ← pList pCElem
+  pure (n, { kind := k, name := n, group := g, label := l, timestamp := ts, message := msg, state := st, elems := es })
+
+def pMirror : P Cli.Mirror := pList (do
+  let n ← pOpt
+  let vs ← pList pCVec
+  pure (n, ({ vecs := vs } : Cli.CDev)))
+
+def encMirror (σ : Cli.Mirror) : String :=
+  encList (fun (dv : Option Str × Cli.CDev) => encOpt dv.1 ++ " " ++
+    encList (fun (nv : Option Str × Cli.CVec) =>
+      let v := nv.2
+      encVKind v.kind ++ " " ++ encOpt v.name ++ " " ++ encOpt v.group ++ " " ++ encOpt v.label ++ " " ++ encOpt v.timestamp ++ " " ++
+        encOpt v.message ++ " " ++ encOpt v.state ++ " " ++
+        encList (fun (ne : Option Str × Cli.CElem) => encOpt ne.2.name ++ " " ++ encOpt ne.2.label ++ " " ++ encCVal ne.2.value) v.elems)
+      dv.2.vecs) σ
+
+def encEvent : Cli.Event → String
+  | .value d v e o n => "V " ++ encOpt d ++ " " ++ encOpt v ++ " " ++ encOpt e ++ " " ++ encCVal o ++ " " ++ encCVal n
+  | .state d v o n => "S " ++ encOpt d ++ " " ++ encOpt v ++ " " ++ encOpt o ++ " " ++ encOpt n
+  | .definition d v => "D " ++ encOpt d ++ " " ++ encOpt v
+
+def pEvent : P Cli.Event := do
+  let t ← tok
+  match t with
+  | "V" => do let d ← pOpt; let v ← pOpt; let e ← pOpt; let o ← pCVal; let n ← pCVal; pure (.value d v e o n)
+  | "S" => do let d ← pOpt; let v ← pOpt; let o ← pOpt; let n ← pOpt; pure (.state d v o n)
+  | "D" => do let d ← pOpt; let v ← pOpt; pure (.definition d v)
+  | _ => fail
+
+def pEvType : P Cli.EvType := do
+  let t ← tok
+  match t with
+  | "base" => pure .base | "value" => pure .value | "state" => pure .state | "definition" => pure .definition
+  | _ => fail
+
+def pCallback : P Cli.Callback := do
+  let i ← pNat; let d ← pOpt; let v ← pOpt; let e ← pOpt; let t ← pEvType; let f ← pNat; let a ← pBool; let r ← pBool
+  pure { id := i, device := d, vector := v, element := e, evType := t, fn := f, async := a, raises := r }
+
+def pOptNat : P (Option Nat) := do
+  let ts ← get
+  match ts with
+  | "~" :: rest => do set rest; pure none
+  | _ => do let n ← pNat; pure (some n)
+
+def pOptEvType : P (Option Cli.EvType) := do
+  let ts ← get
+  match ts with
+  | "~" :: rest => do set rest; pure none
+  | _ => do let n ← pEvType; pure (some n)
+
+def pCliOp : P Cli.Op := do
+  let t ← tok
+  match t with
+  | "m" => do let m ← pMsg; pure (.msg m)
+  | "on" => do let cb ← pCallback; pure (.on cb)
+  | "rm" => do
+    let i ← pOptNat; let d ← pOpt; let v ← pOpt; let e ← pOpt; let t ← pOptEvType; let f ← pOptNat
+    pure (.rm { id := i, device := d, vector := v, element := e, evType := t, fn := f })
+  | _ => fail
+
+def encCliExc : Option Cli.Exc → String
+  | none => "ok"
+  | some .typeError => "TypeError"
+  | some .valueError => "ValueError"
+  | some .assertionError => "AssertionError"
+  | some .keyError => "KeyError"
+
+def encDeliv (l : List (Nat × Cli.Event)) : String :=
+  encList (fun (ce : Nat × Cli.Event) => "c" ++ toString ce.1 ++ " " ++ encEvent ce.2) l
+
+def cliRun : Cli.State → List Cli.Op → List String
+  | _, [] => []
+  | σ, op :: rest =>
+    let r := Cli.step σ op
+    -- deliveries grouped by callback, as the harness observes them
+    let byCb := Spec.Cli.deliveriesByCb σ.cbs r.events
+    (encCliExc r.exc ++ " mirror " ++ encMirror r.state.mirror ++ " deliv " ++ encDeliv byCb ++ " sent " ++
+      encList encOpt r.sent ++ " ncb " ++ toString r.state.cbs.length) :: cliRun r.state rest
+
+def pDeliv : P (List (Nat × Cli.Event)) := pList (do
+  let t ← tok
+  match t.toList with
+  | 'c' :: r => match (String.ofList r).toNat? with
+    | some n => do let e ← pEvent; pure (n, e)
+    | none => fail
+  | _ => fail)
+
 def pCall (task : Bool) : P Dev.Call := do
   let t ← tok
   let hid ← match t.toList with
@@ -330,6 +451,18 @@ def handle (ts : List String) : String :=
   | "spec" :: "normeq" :: rest =>
     match runP (do let a ← pMsg; let b ← pMsg; pure (a, b)) rest with
     | some (a, b) => encBool (Spec.Dev.norm a == Spec.Dev.norm b)
+    | none => "bad-op"
+  | "cli" :: "run" :: rest =>
+    match runP (pList pCliOp) rest with
+    | some ops => String.intercalate " | " (cliRun {} ops)
+    | none => "bad-op"
+  | "spec" :: "c15" :: rest =>
+    match runP (do let b ← pMirror; let m ← pMsg; let r ← pBool; let a ← pMirror; pure (b, m, r, a)) rest with
+    | some (b, m, r, a) => (match Spec.Cli.c15Holds b m r a with | some x => encBool x | none => "na")
+    | none => "bad-op"
+  | "spec" :: "c16" :: rest =>
+    match runP (do let cbs ← pList pCallback; let b ← pMirror; let m ← pMsg; let o ← pDeliv; pure (cbs, b, m, o)) rest with
+    | some (cbs, b, m, o) => (match Spec.Cli.c16Holds cbs b m o with | some x => encBool x | none => "na")
     | none => "bad-op"
   | "dev" :: "run" :: rest =>
     match runP (do let d ← pDevice; let ops ← pList pDevOp; pure (d, ops)) rest with
